@@ -278,7 +278,7 @@ fn hash_strategy(tier: Tier) -> BoxedStrategy<HashCase> {
         prop::option::weighted(0.5, 0u16..=300),
         prop::option::weighted(0.4, gen::position_lattice()),
         any::<bool>(),
-        prop::option::weighted(0.4, prop::sample::select(vec![1u8, 2, 5])),
+        prop::option::weighted(0.4, crate::gen::select(vec![1u8, 2, 5])),
         prop_oneof![3 => Just(0u8), 1 => Just(1u8), 2 => Just(2u8), 1 => Just(3u8)],
     )
         .prop_map(|(files, mode, length, seek, no_mmap, num_threads, output)| HashCase { files, mode, length, seek, no_mmap, num_threads, output })
@@ -522,7 +522,7 @@ fn check_strategy(_tier: Tier) -> BoxedStrategy<CheckCase> {
         any::<bool>(),
         prop::option::weighted(0.3, gen::position_lattice()),
         any::<bool>(),
-        prop::option::weighted(0.3, prop::sample::select(vec![1u8, 2, 5])),
+        prop::option::weighted(0.3, crate::gen::select(vec![1u8, 2, 5])),
         any::<bool>(),
         gen::content(),
         prop_oneof![8 => Just(0u8), 1 => Just(1u8), 1 => Just(2u8)],
